@@ -1,10 +1,168 @@
-import PolyVerif.Model.Seqhash
+import PolyVerif.Lemmas.SeqhashSpec
+import PolyVerif.Driver.C04
 /-
 C04 — Seqhash is invariant under rotation, strand, case and RNA/DNA spelling.
+
+All four clauses are proved for EVERY digest function `blake`, every string of every length,
+every offset, over `hashSpec` = the statement-by-statement model of `seqhash.Hash` with the
+rotation step given by the arg-min least rotation (`Spec.leastRotation`), i.e. MODULO C12
+(`hashWith_congr` below is the bridge: any rotation function that agrees with the arg-min gives
+the same hash).  Helper lemmas: Lemmas/SeqhashSpec.lean, Lemmas/RotationSpec.lean.
+
+ASCII.  None of the theorems needs an ASCII hypothesis on the model side: `Char.toUpper` /
+`Char.toLower` move only `a–z` / `A–Z` (`ascii_or_fixed`; the ASCII part is decided over all
+128 code points), and acceptance already confines the normalised letters to the finite
+alphabets.  The model agrees with Go's `strings.ToUpper` only on ASCII input, which is the
+correspondence domain (assumption "inputs are ASCII" of the check).
 -/
 namespace PolyVerif.Props.C04
-open PolyVerif PolyVerif.Seqhash PolyVerif.Transform
+open PolyVerif PolyVerif.Seqhash PolyVerif.Transform PolyVerif.Spec
 
 theorem tag_length (ty : String) (c d : Bool) : (tag ty c d).length = 3 := rfl
+
+/-- modulo C12: the hash depends on the rotation function only through its values -/
+theorem hashWith_congr {rot rot' : Str → Option Str} (h : ∀ s, rot s = rot' s)
+    (blake : List UInt8 → List UInt8) (s : Str) (ty : String) (c d : Bool) :
+    hashWith rot blake s ty c d = hashWith rot' blake s ty c d := by
+  have : rot = rot' := funext h
+  rw [this]
+
+/-! ### rotation -/
+
+/-- hashing any rotation of a sequence as a circular molecule yields the identical seqhash
+(single- or double-stranded; any type; on rejected input both sides are the same error) -/
+theorem hash_rot (blake : List UInt8 → List UInt8) (s : Str) (ty : String) (ds : Bool) (k : Nat) :
+    hashSpec blake (rotl k s) ty true ds = hashSpec blake s ty true ds := by
+  by_cases ha : Accepted ty ds (norm ty s)
+  · have ha' : Accepted ty ds (norm ty (rotl k s)) := by rw [norm_rotl, accepted_rotl]; exact ha
+    rw [hashSpec_ok _ _ _ _ _ ha, hashSpec_ok _ _ _ _ _ ha', norm_rotl, canonSpec_rotl]
+  · have ha' : ¬ Accepted ty ds (norm ty (rotl k s)) := by rw [norm_rotl, accepted_rotl]; exact ha
+    rw [hashSpec_err _ _ _ _ _ ha, hashSpec_err _ _ _ _ _ ha']
+
+/-- the reverse complement of a rotation is a rotation of the reverse complement (offset `n - k`) -/
+theorem revComp_rotl (k : Nat) (s : Str) :
+    revComp (rotl k s) = rotl (s.length - k % s.length) (revComp s) := Seqhash.revComp_rotl k s
+
+/-! ### strand -/
+
+/-- hashing the reverse complement as a double-stranded nucleic acid yields the identical seqhash.
+Domain of the clause: the normalised sequence (upper-cased, `U → T` under RNA) is over the 15
+IUPAC codes `ACGTRYSWKMBDHVN` — i.e. the input is over those codes in either case, with `U/u`
+allowed only under type RNA. -/
+theorem hash_strand (blake : List UInt8 → List UInt8) (s : Str) (ty : String) (c : Bool)
+    (h : Iupac15 (norm ty s)) :
+    hashSpec blake (revComp s) ty c true = hashSpec blake s ty c true := by
+  have hn := norm_revComp h
+  have hacc : Accepted ty true (norm ty (revComp s)) ↔ Accepted ty true (norm ty s) := by
+    rw [hn]
+    have key : ∀ t, Iupac15 t → (Accepted ty true t ↔ (ty = "DNA" ∨ ty = "RNA")) := by
+      intro t ht
+      constructor
+      · rintro (⟨h', _⟩ | ⟨_, _, h'⟩)
+        · exact h'
+        · exact absurd h' (by simp)
+      · intro h'
+        exact Or.inl ⟨h', fun x hx => upperCodes_sub_nucleotide x (ht x hx)⟩
+    rw [key _ h.revComp, key _ h]
+  by_cases ha : Accepted ty true (norm ty s)
+  · rw [hashSpec_ok _ _ _ _ _ ha, hashSpec_ok _ _ _ _ _ (hacc.2 ha), hn, canonSpec_revComp h.rc_rc]
+  · rw [hashSpec_err _ _ _ _ _ ha, hashSpec_err _ _ _ _ _ (fun h' => ha (hacc.1 h'))]
+
+/-! ### case -/
+
+/-- any input with the same upper-casing has the same hash (all types, all flags; also for the
+Booth-loop model, since `Hash` upper-cases first) -/
+theorem hashWith_of_upper_eq (rot : Str → Option Str) (blake : List UInt8 → List UInt8) {s s' : Str}
+    (h : upper s' = upper s) (ty : String) (c d : Bool) :
+    hashWith rot blake s' ty c d = hashWith rot blake s ty c d := by
+  unfold hashWith
+  rw [h]
+
+theorem hash_of_upper_eq (blake : List UInt8 → List UInt8) {s s' : Str} (h : upper s' = upper s)
+    (ty : String) (c d : Bool) : hashSpec blake s' ty c d = hashSpec blake s ty c d :=
+  hashWith_of_upper_eq _ blake h ty c d
+
+/-- an arbitrary per-position change of case: position `i` is lower-cased when `f i`, upper-cased otherwise -/
+def recase (f : Nat → Bool) (s : Str) : Str :=
+  s.zipIdx.map fun (c, i) => if f i then c.toLower else c.toUpper
+
+theorem upper_recase_aux (f : Nat → Bool) : ∀ (s : Str) (k : Nat),
+    ((s.zipIdx k).map fun (c, i) => if f i then c.toLower else c.toUpper).map Char.toUpper = s.map Char.toUpper
+  | [], _ => rfl
+  | c :: cs, k => by
+    simp only [List.zipIdx_cons, List.map_cons, List.cons.injEq]
+    refine ⟨?_, upper_recase_aux f cs (k + 1)⟩
+    split
+    · exact toUpper_toLower c
+    · exact toUpper_toUpper c
+
+/-- recasing does not change the upper-cased string -/
+theorem upper_recase (f : Nat → Bool) (s : Str) : upper (recase f s) = upper s :=
+  upper_recase_aux f s 0
+
+theorem recase_length (f : Nat → Bool) (s : Str) : (recase f s).length = s.length := by
+  simp [recase]
+
+/-- changing the case of the letters, position by position in any way, yields the identical seqhash -/
+theorem hash_case (blake : List UInt8 → List UInt8) (f : Nat → Bool) (s : Str) (ty : String) (c d : Bool) :
+    hashSpec blake (recase f s) ty c d = hashSpec blake s ty c d :=
+  hash_of_upper_eq blake (upper_recase f s) ty c d
+
+/-- the recasing used by the check's driver is an instance -/
+theorem driver_recase (mask s : Str) :
+    Driver.C04.recase mask s =
+      if mask.isEmpty then s else recase (fun i => mask[i % mask.length]! == 'l') s := rfl
+
+theorem hash_case_driver (blake : List UInt8 → List UInt8) (mask s : Str) (ty : String) (c d : Bool) :
+    hashSpec blake (Driver.C04.recase mask s) ty c d = hashSpec blake s ty c d := by
+  rw [driver_recase]
+  split
+  · rfl
+  · exact hash_case blake _ s ty c d
+
+/-! ### RNA / DNA spelling -/
+
+theorem table_nucleotide_upper : ∀ c ∈ nucleotideLetters, c.toUpper = c := by decide
+
+/-- An RNA sequence and the same sequence spelled as DNA (upper case, `U` written as `T`) receive
+seqhashes that differ only in the molecule-type letter (position 3: `R` vs `D`). -/
+theorem hash_rna_dna (blake : List UInt8 → List UInt8) (s : Str) (c d : Bool) (h : Str)
+    (hr : hashSpec blake s "RNA" c d = .ok h) :
+    hashSpec blake (uToT (upper s)) "DNA" c d = .ok (h.set 3 'D') ∧ h[3]? = some 'R' := by
+  obtain ⟨hacc, rfl⟩ := hashSpec_ok_iff.1 hr
+  have hnR : norm "RNA" s = uToT (upper s) := by simp [norm]
+  rw [hnR] at hacc ⊢
+  have hlet : ∀ x ∈ uToT (upper s), x ∈ nucleotideLetters := by
+    rcases hacc with ⟨_, hl⟩ | ⟨hp, _⟩
+    · exact hl
+    · exact absurd hp (by decide)
+  have hnD : norm "DNA" (uToT (upper s)) = uToT (upper s) := by
+    have : norm "DNA" (uToT (upper s)) = upper (uToT (upper s)) := by
+      unfold norm; rw [if_neg (by decide)]
+    rw [this]
+    unfold upper
+    conv => rhs; rw [← List.map_id (uToT (List.map Char.toUpper s))]
+    apply List.map_congr_left
+    intro x hx
+    exact table_nucleotide_upper x (hlet x hx)
+  have haccD : Accepted "DNA" d (norm "DNA" (uToT (upper s))) := by
+    rw [hnD]; exact Or.inl ⟨Or.inl rfl, hlet⟩
+  rw [hashSpec_ok _ _ _ _ _ haccD, hnD]
+  constructor
+  · congr 1
+  · simp [v1, v1_prefix, tag]
+
+/-! ### non-vacuity: concrete inputs meeting the hypotheses (tests on literals, not theorems) -/
+
+/-- strand-clause hypothesis: lower case, ambiguity codes and `u` under RNA are inside the domain -/
+example : Iupac15 (norm "RNA" "acgUryKn".toList) := by decide
+example : Iupac15 (norm "DNA" "GAATTCnRyk".toList) := by decide
+/-- …and `U` under DNA is outside it -/
+example : ¬ Iupac15 (norm "DNA" "ACGU".toList) := by decide
+example : revComp (rotl 1 "AACG".toList) = rotl 3 (revComp "AACG".toList) := by decide
+example : recase (fun i => i % 2 == 0) "ACgt".toList = "aCgT".toList := by decide
+/-- the premise of `hash_rna_dna` is satisfiable (identity "digest") -/
+example : ∃ h, hashSpec id "acgu".toList "RNA" true true = .ok h :=
+  ⟨_, hashSpec_ok id _ _ _ _ (by decide)⟩
 
 end PolyVerif.Props.C04
